@@ -85,8 +85,8 @@ static void vf_init(void)
 {
     unsigned const ps = vf.tier ? 12 : 7;  /* product shapes: all (row,inner,col) in [1,ps]^3 */
     unsigned const rs = vf.tier ? 14 : 9;  /* rectangular shapes: all (m,n) in [1,rs]^2 */
-    unsigned const nprand = vf.tier ? 120000 : 4000;
-    unsigned const nrrand = vf.tier ? 60000 : 2000;
+    unsigned const nprand = vf.tier ? 90000 : 4000;
+    unsigned const nrrand = vf.tier ? 45000 : 2000;
     unsigned a, b, c;
     prod_reps = vf.tier ? 50 : 6;
     rect_reps = vf.tier ? 50 : 8;
